@@ -1,0 +1,84 @@
+/*
+ * Copyright © 2019-today Peter M. Stahl pemistahl@gmail.com
+ *
+ * Licensed under the Apache License, Version 2.0 (the "License");
+ * you may not use this file except in compliance with the License.
+ * You may obtain a copy of the License at
+ *
+ * http://www.apache.org/licenses/LICENSE-2.0
+ *
+ * Unless required by applicable law or agreed to in writing, software
+ * distributed under the License is distributed on an "AS IS" BASIS,
+ * WITHOUT WARRANTIES OR CONDITIONS OF ANY KIND, either expressed or implied.
+ * See the License for the specific language governing permissions and
+ * limitations under the License.
+ */
+
+//! Read-only observation points for external runtime monitors.
+//!
+//! This module is only compiled with `--cfg grex_verif`. It keeps a thread-local,
+//! append-only log of what the pipeline stages produced during `build()`.
+//! Nothing in here influences the generated regular expression.
+
+use crate::grapheme::Grapheme;
+use std::cell::RefCell;
+
+/// A snapshot of one edge label / cluster element.
+#[derive(Clone, Debug, PartialEq, Eq, Hash, PartialOrd, Ord)]
+pub struct G {
+    pub chars: Vec<String>,
+    pub min: u32,
+    pub max: u32,
+    pub repetitions: Vec<G>,
+}
+
+#[derive(Clone, Debug, PartialEq, Eq)]
+pub enum Event {
+    /// The test cases after optional lower-casing, sorting and deduplication.
+    Sorted(Vec<String>),
+    /// The converted grapheme clusters, one list per sorted test case.
+    Clusters(Vec<Vec<G>>),
+    /// The automaton after all insertions (`minimized == false`) or after minimization.
+    Dfa {
+        minimized: bool,
+        start: usize,
+        finals: Vec<usize>,
+        nodes: Vec<usize>,
+        edges: Vec<(usize, usize, G)>,
+    },
+    /// The string form of an expression produced by state elimination.
+    Expr(String),
+    /// A decision taken by the self-check in `RegExp::from`.
+    Branch(&'static str),
+    /// The string form of the expression that is finally rendered.
+    FinalExpr(String),
+}
+
+thread_local! {
+    static LOG: RefCell<Vec<Event>> = const { RefCell::new(Vec::new()) };
+}
+
+pub fn record(event: Event) {
+    LOG.with(|log| log.borrow_mut().push(event));
+}
+
+/// Returns and clears the events recorded on the current thread.
+pub fn take() -> Vec<Event> {
+    LOG.with(|log| std::mem::take(&mut *log.borrow_mut()))
+}
+
+pub(crate) fn g(grapheme: &Grapheme) -> G {
+    G {
+        chars: grapheme.chars().clone(),
+        min: grapheme.minimum(),
+        max: grapheme.maximum(),
+        repetitions: grapheme.repetitions.iter().map(g).collect(),
+    }
+}
+
+/// The number of elements grex splits `s` into with default settings.
+/// This is the sort key of the plain alternation built as a last resort.
+pub fn cluster_size(s: &str) -> usize {
+    let config = crate::config::RegExpConfig::new();
+    crate::cluster::GraphemeCluster::from(s, &config).size()
+}
